@@ -462,6 +462,10 @@ where
     fn grow(&mut self) -> Result<(), Error> {
         let cap = self.buf_reader.capacity();
         let new_size = self.buf_policy.grow_to(cap).ok_or(Error::BufferLimit)?;
+        if new_size <= cap {
+            // the buffer has to grow, otherwise the record can never be completed
+            return Err(Error::BufferLimit);
+        }
         let additional = new_size - cap;
         self.buf_reader.reserve(additional);
         Ok(())
